@@ -238,7 +238,7 @@ contract(
     f"{OV}:native_pix_transform",
     ["C03", "C10"],
     inputs=dict(src=GEOBOX(), M=AFFINE(), dshape=Tup(Int(ge=1), Int(ge=1)), dst=Derived(lambda src, M, dshape: _dst_of(src, M, dshape), "GeoBox with affine src.affine * M (M maps destination pixels to source pixels), same CRS")),
-    requires=[lambda src, M: And(_nondeg(src.affine), _nondeg(M)), lambda src, dst, M: aff_eq(dst.affine, src.affine * M), lambda src, dst: src.crs == dst.crs],
+    requires=[lambda src, dst, M: And(_nondeg(src.affine), _nondeg(M), _nondeg(dst.affine)), lambda src, dst, M: aff_eq(dst.affine, src.affine * M), lambda src, dst: src.crs == dst.crs],
     ensures=[
         ("same CRS: a linear pixel transform F = inv(dst.affine) * src.affine with F * M == identity, i.e. its inverse (the destination->source direction) is M", lambda M, result: aff_eq(result.linear * M, repo("affine").Affine.identity())),
     ],
@@ -323,7 +323,7 @@ contract(
     f"{OV}:compute_reproject_roi",
     ["C03", "C10"],
     inputs=_RR_INPUTS,
-    requires=[lambda src: _nondeg(src.affine)],
+    requires=[lambda src, dst: And(_nondeg(src.affine), _nondeg(dst.affine))],
     ensures=[
         ("scale is the pixel-size ratio; read_shrink is that integer", lambda src, dst, k, result: _rr_post_common(src, dst, k, result)),
         *[(f"paste_ok with read_shrink == 1 is the nearest-neighbour warp, {ax} axis: {_NN_TEXT[part]}", _rr_nn_part(ax, part)) for ax in ("y", "x") for part in ("iff", "copy", "size")],
